@@ -101,10 +101,34 @@ def cascade(draw):
     return reduce_useful(d)
 
 
+@st.composite
+def nullable_web(draw):
+    """the hard case of the FIRST / FOLLOW fixpoints: variables that are nullable only through non-empty bodies and
+    occur in bodies of each other and of themselves (also behind a nullable prefix), so that a set computed early has
+    to be revisited when nullability arrives late; only one or two variables have an explicit empty production"""
+    k = draw(st.sampled_from([3, 2, 4]))
+    vs = ["S", "A", "B", "C"][:k]
+    ts = ["a", "b", "c"]
+    prods = []
+    leaves = draw(st.lists(st.sampled_from(vs[1:]), min_size=1, max_size=2, unique=True))
+    sym = st.one_of(st.sampled_from(vs).map(lambda v: ["V", v]), st.sampled_from(vs).map(lambda v: ["V", v]),
+                    st.sampled_from(ts).map(lambda t: ["T", t]))
+    for v in vs:
+        if v in leaves:
+            prods.append([v, []])
+        for _ in range(draw(st.integers(0 if v in leaves else 1, 2 if v in leaves else 3))):
+            b = draw(st.lists(sym, min_size=1, max_size=3))
+            if [v, b] not in prods:
+                prods.append([v, b])
+    prods = draw(st.permutations(prods))
+    d = {"start": "S", "prods": [list(p) for p in prods], "how": "ctor", "vpool": "web", "tpool": "abc"}
+    return reduce_useful(d)
+
+
 def strategy(tier, flags):
     rnd = gen_cfg.cfg_desc(var_pools=["std", "long"], term_pools=["ab", "abc", "tok"], max_prods=7, max_body=3,
                            allow_text=False).map(reduce_useful)
-    base = st.one_of(ll1_like(), rnd, cascade(), ll1_like()).filter(lambda d: len(d["prods"]) > 0)
+    base = st.one_of(ll1_like(), rnd, cascade(), ll1_like(), nullable_web()).filter(lambda d: len(d["prods"]) > 0)
     # one case in eight: a terminal whose value is "$", the spelling of the parser's own end-of-input marker
     return st.tuples(base, st.sampled_from([0, 0, 0, 0, 1, 0, 0, 0])).map(
         lambda t: {"g": rename_terminal(t[0], "$") if t[1] else t[0]})
